@@ -90,6 +90,14 @@ class C01:
             keys = make_keys(S, suite, 5 if tier == "quick" else 12, label="keygen")
             shapes = [(L, h) for L in Ls for h in (None, b"", rb(rng, 16), rb(rng, 300))]
             flows = honest_sigs(S, suite, keys, shapes, label="sign")
+            # very long messages / header and thousands of messages (hashed inputs beyond 2^16 bytes)
+            sk_, pk_ = keys[0]
+            big = [{"suite": suite, "sk": sk_, "pk": pk_, "header": b"h", "msgs": [rb(rng, 65536), b"x"]},
+                   {"suite": suite, "sk": sk_, "pk": pk_, "header": rb(rng, 70000), "msgs": [b"a", rb(rng, 65535)]},
+                   {"suite": suite, "sk": sk_, "pk": pk_, "header": None, "msgs": [bytes([i % 251]) * (i % 3) for i in range(1400 if tier == "quick" else 4100)]}]
+            rbig = S.run(["sign %s %s %s %s %s" % (suite, tb(f["sk"]), tb(f["pk"]), tob(f["header"]), tl(f["msgs"])) for f in big], expect="ok", label="sign-large")
+            for f, r in zip(big, rbig):
+                if r.status == "OK": f["sig"] = r.b(0); flows.append(f)
             S.run(["verify %s %s %s %s %s" % (suite, tb(f["pk"]), tb(f["sig"]), tob(f["header"]), tl(f["msgs"])) for f in flows],
                   expect="ok", label="verify(sign)")
             dres = S.run(["dec sig %s" % tb(f["sig"]) for f in flows], expect="ok", label="sig-roundtrip")
@@ -293,6 +301,16 @@ def build_forgeries(suite, pk, header, ph, msgs_claimed, D, U, rng, P):
                 c = c2 if d == "O" else c   # with D=O: T1=O, T2 = Bv*c + .. depends on c
         proof = Abar + Bbar + Dp + pyc.sc(e_c) + pyc.sc(r1_c) + pyc.sc(r3) + b"".join(pyc.sc(x) for x in m_c) + pyc.sc(c)
         out.append(("%s/%s/%s" % (a, b, d), proof))
+    # points outside the prime-order subgroup that cancel: Abar = T, Bbar = -T, D = Bv, e^ = c, r3^ = -c.  Then
+    # T1 = Bbar*c + Abar*e^ + D*r1^ = D*r1^ and T2 = sum H_j m^_j do not depend on c (no arithmetic on T needed).
+    for k, (T, Tn) in enumerate(pyc.g1_torsion_pairs(rng, 2)):
+        r1_c = rng.randrange(pyc.R); m_c = [rng.randrange(pyc.R) for _ in und]
+        T1 = P.mul(r1_c, Bv); T2 = O
+        for j, mc in zip(und, m_c): T2 = P.add(T2, P.mul(mc, H[j]))
+        carr = pyc.i8(len(D)) + b"".join(pyc.i8(i) + pyc.sc(m) for i, m in zip(D, ms)) + T + Tn + Bv + T1 + T2 + pyc.sc(dom) + pyc.i8(len(norm(ph))) + norm(ph)
+        c = pyc.h2s(suite, carr, api + b"H2S_")
+        proof = T + Tn + Bv + pyc.sc(c) + pyc.sc(r1_c) + pyc.sc(-c) + b"".join(pyc.sc(x) for x in m_c) + pyc.sc(c)
+        out.append(("torsion-cancel-%d" % k, proof))
     return out
 
 def create_gens(suite, count, api, P):
